@@ -891,6 +891,86 @@ def d2f_join_over_text(chk: Check, cl: List[FuncInfo]) -> None:
         raise AnalysisError("join sites of the closure not found")
 
 
+def d2h_aoh_means_raw_elements_are_mappings(chk: Check) -> None:
+    """Callers take `node_is_aoh(x)` as licence to treat the elements of x
+    *as they are* as mappings (`term in ele`, `ele[key]`) -- that is how
+    the `in` sites of the search handler are discharged.  The predicate
+    must therefore test the elements themselves.  If it looks through a
+    wrapper first (NodeCoords elements of a Collector result), a list of
+    wrappers is reported as an Array-of-Hashes and `term in <NodeCoords>`
+    raises TypeError."""
+    prog = chk.prog
+    chk.rule("C15-D2h", "Nodes.node_is_aoh tests isinstance(<element>, dict) "
+             "on the element as iterated (no re-binding, no unwrapping)",
+             floor=1)
+    fi = prog.func("Nodes.node_is_aoh")
+    loops = [l for l in walk_local(fi.node) if isinstance(l, ast.For)]
+    if len(loops) != 1 or not isinstance(loops[0].target, ast.Name):
+        raise AnalysisError("element loop of node_is_aoh not found")
+    loop = loops[0]
+    ele = loop.target.id
+    rebound = [x for st in loop.body for x in ast.walk(st)
+               if isinstance(x, ast.Name) and x.id == ele and
+               isinstance(x.ctx, ast.Store)]
+    tests = [c for st in loop.body for c in ast.walk(st)
+             if isinstance(c, ast.Call) and src(c.func) == "isinstance" and
+             len(c.args) == 2 and "dict" in src(c.args[1])]
+    text = "node_is_aoh: element test"
+    if rebound:
+        chk.fail("C15-D2h", fi, rebound[0], text,
+                 "`{}` is re-bound before it is tested: the verdict is "
+                 "about something other than the element the caller will "
+                 "use (`term in ele` on a NodeCoords raises TypeError)"
+                 .format(ele))
+    elif tests and all(src(t.args[0]) == ele for t in tests):
+        chk.ok("C15-D2h", fi, tests[0], text,
+               "isinstance({}, dict) on the iterated element".format(ele))
+    else:
+        chk.fail("C15-D2h", fi, loop, text,
+                 "no isinstance(<element>, dict) test on the raw element")
+
+
+def d2i_wrapper_equality_is_total(chk: Check) -> None:
+    """`x in seq`, `seq.index(x)`, `seq.remove(x)`, `a == b` call `__eq__`
+    with whatever operand is at hand -- through the reflected call also with
+    a plain string on the other side.  NodeCoords has no `__eq__` (equality
+    is identity, which is what the rule tables keyed by NodeCoords want).
+    If one is added it must be total: reading `other.node` of a str raises
+    AttributeError out of `match_key in data` as soon as `data` is a slice
+    or Collector result (a list of NodeCoords)."""
+    prog = chk.prog
+    chk.rule("C15-D2i", "NodeCoords defines no __eq__ / __ne__, or one that "
+             "reads attributes of its operand only under an isinstance test",
+             floor=1)
+    ci = prog.class_by_name("NodeCoords")
+    found = False
+    for name in ("__eq__", "__ne__"):
+        m = ci.methods.get(name)
+        if m is None:
+            continue
+        found = True
+        other = m.params()[1] if len(m.params()) > 1 else None
+        reads = [a for a in walk_local(m.node) if isinstance(a, ast.Attribute)
+                 and other and src(a.value) == other]
+        unguarded = [a for a in reads if not any(
+            f.kind == "cond" and f.pol and isinstance(f.expr, ast.Call) and
+            src(f.expr.func) == "isinstance" and
+            src(f.expr.args[0]) == other for f in facts_at(a))]
+        text = "NodeCoords.{}".format(name)
+        if unguarded:
+            chk.fail("C15-D2i", m, unguarded[0], text,
+                     "`{}` is read whatever the operand is: a membership "
+                     "test of text in a list of NodeCoords (`key in data` "
+                     "on a slice or Collector result) raises "
+                     "AttributeError: 'str' object has no attribute "
+                     "'node'".format(src(unguarded[0])))
+        else:
+            chk.ok("C15-D2i", m, m.node, text, "total")
+    if not found:
+        chk.ok("C15-D2i", None, None, "NodeCoords equality",
+               "identity (no __eq__ / __ne__ defined)")
+
+
 def run(chk: Check) -> None:
     prog = chk.prog
     cl = c15_closure(prog)
@@ -910,6 +990,8 @@ def run(chk: Check) -> None:
     d2_types(chk, cl)
     d2e_wrapped_elements(chk)
     d2f_join_over_text(chk, cl)
+    d2h_aoh_means_raw_elements_are_mappings(chk)
+    d2i_wrapper_equality_is_total(chk)
     from rules.shared import implicit_ordering_rule
     implicit_ordering_rule(chk, "C15-D2g", [
         f for f in cl if not f.short.startswith(C14_OWNED_PREFIX)], 40)
